@@ -379,6 +379,11 @@ Proof.
   - f_equal. rewrite map_map. apply map_ext_Forall. exact H.
 Qed.
 
+(* statement form used by Props/C05.v *)
+Lemma print_idempotent_both_proof : forall e, print_js (ng e) = print_js e /\ ng (ng e) = ng e.
+Proof. intros e. split; [apply print_idempotent_proof|apply ng_ng]. Qed.
+
+
 (* ---- non-vacuity ------------------------------------------------------------------------------------------------------ *)
 
 Definition ex_c05_tokens : list token :=
